@@ -128,6 +128,7 @@ def run(ctx):
                         lambda o: (tuple(o.severities()), tuple(o.scores())),
                         lambda o: (tuple(o.severities()), tuple(o.scores())), shared, "ratings",
                         replay_of=lambda vs: {"ver": vs[0], "s": vs[1], "shared_threads": 4})
+    conc.flag_variants(ctx, [["S", v, s] for v, s in todo[:: max(1, len(todo) // ctx.n(150, 1500))] if core.sendable(s)], "ratings")
     # ratings of the atlas against the official scale (Lean spec) and model-vs-code on scores+severities
     keys = sorted(atlas)
     for k in keys:
